@@ -18,7 +18,7 @@ def main():
     jobs = 6
     if "--jobs" in args:
         i = args.index("--jobs"); jobs = int(args[i + 1]); del args[i:i + 2]
-    seeds = args or sorted(d for d in os.listdir(V + "/seeded") if os.path.isdir(V + "/seeded/" + d))
+    seeds = args or sorted(d for d in os.listdir(V + "/seeded") if os.path.isdir(V + "/seeded/" + d) and d != "retired")
     head = sh("git rev-parse --short HEAD", cwd=R)[1].strip()
     q = queue.Queue()
     os.makedirs(S, exist_ok=True)
